@@ -654,6 +654,8 @@ def r06_5(chk, repo):
         final_all, okn_all, rk_bad, nk_bad, bad_node = True, True, "", "", None
         for re_ in ev2.returns:
             ret = re_.value.as_atom() if re_.value is not None else None
+            if not (ret and ret[0] == "call"):
+                ret = None
             okret = bool(ret and len(ret[2]) == 4 and "$verts" in ret[2][0].key() and "$faces" in ret[2][1].key())
             rk = ret[2][0].key() if okret else str(re_.value)[:80]
             final_ok = okret and (rk == f"$verts'{nver - 1}" or (rk.startswith("(ite ") and f"$verts'{nver - 1}" in rk))
